@@ -8,10 +8,11 @@ OUT=/var/tmp/seedverify; mkdir -p $OUT
 WT=/var/tmp/wt-seedverify
 git -C /repo worktree remove --force $WT 2>/dev/null; rm -rf $WT
 git -C /repo worktree add -q --detach $WT HEAD || exit 2
-cd /verif/seeded
+SEEDDIR=${SEEDDIR:-/verif/seeded}
+cd $SEEDDIR
 names=${@:-$(ls -d C*)}
 for n in $names; do
-  d=/verif/seeded/$n
+  d=$SEEDDIR/$n
   patch=$d/patch.diff; [ -f $d/patch.ported.diff ] && patch=$d/patch.ported.diff
   r=$OUT/$n.result; : > $r
   git -C $WT checkout -q -- . ; git -C $WT clean -fdq
